@@ -11,7 +11,7 @@ CONSTANTS
   StoreFaults = FALSE
   LoseDB = TRUE
   HeaderHasPrev = TRUE
-  FixedF4 = FALSE
+  FixedF4 = "no"
 INIT Init
 NEXT Next
 VIEW view
